@@ -291,6 +291,43 @@ def syms : List Item → List SymId
   | .sym id _ :: r => id :: syms r
   | _ :: r => syms r
 
+
+/-! ### `Concretization.candidates`, `process_dyn_params`, and the branching of `SEVM.calldataload`
+
+`candidates` is a dict `size symbol ↦ candidate list` owned by the path; `process_dyn_params` only *adds* entries
+(`self.candidates[d.size_symbol] = d.size_choices`), it never removes one: several symbolic calldata may be registered on
+the same path (`svm.createCalldata` registers one per function of the target contract). -/
+
+abbrev Candidates := SymId → Option (List Nat)
+
+/-- `DynamicParam` reduced to what `process_dyn_params` uses -/
+structure DynParam where
+  sizeSymbol : SymId
+  sizeChoices : List Nat
+  deriving Repr, Inhabited
+
+/-- `for d in dyn_params: self.candidates[d.size_symbol] = d.size_choices` -/
+def processDynParams (c : Candidates) : List DynParam → Candidates
+  | [] => c
+  | d :: ds => processDynParams (fun s => if s = d.sizeSymbol then some d.sizeChoices else c s) ds
+
+/-- the `dyn_params` list returned with an encoding: one entry per size symbol -/
+def dynParamsOf (cfg : Cfg) : List Item → List DynParam
+  | [] => []
+  | .sizeVar id isArr :: r => ⟨id, cfg.sizes id.pname isArr⟩ :: dynParamsOf cfg r
+  | _ :: r => dynParamsOf cfg r
+
+/-- What `calldataload` pushes when the loaded word is the symbol `s` (one entry per successor path):
+the substituted constant if the path already fixes `s`; one successor per candidate (value = candidate, with the
+condition `s == candidate`) if `s` has candidates; otherwise the symbol itself, unbranched (`none`). -/
+def calldataloadSym (subst : SymId → Option Nat) (c : Candidates) (s : SymId) : List (Option Nat) :=
+  match subst s with
+  | some v => [some v]
+  | none =>
+    match c s with
+    | some cs => cs.map some
+    | none => [none]
+
 /-! ### rendering of names (`p_<name>_<kind>_<uid>_<id:>02>`) -/
 
 def pad2 (s : String) : String := if s.length < 2 then String.ofList (List.replicate (2 - s.length) '0') ++ s else s
